@@ -24,7 +24,7 @@ def units(tier):
     files = corpus.files()
     for i in range(16):
         us.append(("S6", i))
-    us += S.doc_units(["S1", "S2", "S3", "S4", "S5", "ROOT"], tier)
+    us += S.doc_units(["S1", "S1n", "S2", "S3", "S4", "S5", "ROOT"], tier)
     return us
 
 
